@@ -344,3 +344,36 @@ def r_dottable(idx, rep, rule="R-DOTTABLE"):
                             "" if sel is None else " with selector `%s`" % u(sel[3]))
                     rep.check(good, rule, key, where, "SimplexInfo.%s: %s (stale or transposed inner products make the sub-algorithm pick the wrong feature)" % (name, why), "ok")
         walk(m.node.body)
+
+
+def r_cofactorsign(idx, rep, rule="R-COFACTORSIGN"):
+    """Johnson's sub-algorithm decides every Voronoi region from the SIGNS of cofactors d[i, j]: a vertex takes part iff its cofactor is > 0,
+    and 0 always falls on the 'not inside' side.  Throughout BarycentricCoordinates the comparisons are therefore `d > c` or its exact complement
+    `d <= c` (`not d > c`); a `d < c` / `d >= c` treats the boundary value the other way round and leaves exactly-degenerate simplices (integer
+    coordinates, symmetric placements) without any accepting region."""
+    rep.rule(rule, "BarycentricCoordinates: every comparison of a cofactor d[i, j] with a threshold is `d > c` or `d <= c` (the complementary pair), "
+                   "so that the boundary value belongs to the same side in every region predicate", floor=15)
+    ci = idx.cls(O + "::BarycentricCoordinates")
+    for name, m in sorted(ci.methods.items()):
+        n = 0
+        bad = None
+        for c in ast.walk(m.node):
+            if isinstance(c, ast.Compare) and len(c.ops) == 1:
+                t = ncmp(c)
+                if t is None:
+                    continue
+
+                def is_d(e):
+                    return isinstance(e, ast.Subscript) and u(e.value) == "self.d"
+                if is_d(t[1]) == is_d(t[2]):
+                    continue
+                n += 1
+                op, a, b = t
+                ok = (op == "<" and is_d(b)) or (op == "<=" and is_d(a))      # c < d  (d > c)   or   d <= c
+                if not ok and bad is None:
+                    bad = c
+        if n == 0:
+            continue
+        rep.check(bad is None, rule, "%s|cofactor comparisons are `> c` / `<= c`" % m.key, "%s:%d" % (m.module.relpath, (bad.lineno if bad else m.node.lineno)),
+                  "`%s` treats a cofactor that is exactly on the threshold differently from every other region predicate (which use `d > c` / `not d > c`): for exactly "
+                  "degenerate simplices no region accepts, the fast path raises and GJK stops early on a non-optimal simplex" % (u(bad) if bad else ""), "%d comparisons" % n)
